@@ -26,6 +26,7 @@ SHAPES = [
     ("record", [[2, 2]], False, Q),
     ("loaders", [[0, 0], [0, 0]], False, Q),
     ("rebuild", [[1, 1]], False, Q),
+    ("reverse", [[0, 0]] * 3, False, Q, dict(shard=4)),
     ("construct", [[1, 1], [1, 1]], False, T, dict(budget=2400, shard=8)),
     ("construct", [[1, 0]] * 3, False, T, dict(budget=2400, shard=9)),
     ("construct", [[0, 1]] * 3, False, T, dict(budget=2400, shard=9)),
@@ -35,7 +36,7 @@ SHAPES = [
 
 def jobs(tier):
     return shape_jobs(SHAPES, tier, {"construct": ["ok", "dupU", "dupP"], "record": ["valid", "invalid"],
-                                     "loaders": ["done"], "rebuild": ["dupP", "dupU"]})
+                                     "loaders": ["done"], "rebuild": ["dupP", "dupU"], "reverse": ["done"]})
 
 
 def clash(groups):
@@ -153,6 +154,26 @@ def build(job):
         except ValueError:
             eng.fail("from_reverse_prefix_map rejected a reverse prefix map (distinct URI prefixes can never clash)")
         return "done"
+    def reverse(eng):
+        """from_reverse_prefix_map alone, on 3 entries (grouping by CURIE prefix; values may coincide, also up to case)."""
+        api = eng.mods.api
+        n = len(params["shape"])
+        ks = [eng.var(f"k{i}") for i in range(n)]
+        vs = [eng.var(f"v{i}") for i in range(n)]
+        eng.assume(distinct(ks))
+        try:
+            c = api.Converter.from_reverse_prefix_map(eng.mkdict(list(zip(ks, vs))))
+        except ValueError:
+            eng.fail("from_reverse_prefix_map rejected a reverse prefix map (distinct URI prefixes can never clash)")
+            return "done"
+        check_success(eng, c, c.records)
+        # every entry is registered: its URI prefix belongs to the record of its CURIE prefix
+        for k, v in zip(ks, vs):
+            owners = [r for r in c.records if sym_eq(r.prefix, v)]
+            eng.expect(len(owners) == 1 and (sym_eq(owners[0].uri_prefix, k) or any(sym_eq(k, s) for s in owners[0].uri_prefix_synonyms)),
+                       "an entry of the reverse prefix map is not registered with the record of its CURIE prefix")
+        return "done"
+
     def rebuild(eng):
         """Records that gained synonyms after they were first used (in-place merge) must still be described completely
         to a strict constructor: a second owner of an acquired synonym is a clash."""
@@ -175,4 +196,4 @@ def build(job):
                 eng.expect(type(e).__name__ == ("DuplicatePrefixes" if side == "curie" else "DuplicateURIPrefixes"), "wrong duplicate error class")
         return "dupP" if side == "curie" else "dupU"
 
-    return dict(construct=construct, record=record, loaders=loaders, rebuild=rebuild)[fn]
+    return dict(construct=construct, record=record, loaders=loaders, rebuild=rebuild, reverse=reverse)[fn]
